@@ -58,7 +58,7 @@ type C06Srv struct {
 
 	mu       sync.Mutex
 	prefixes []string // only commands on keys with one of these prefixes belong to the running case
-	mode     string   // "" | down | get | set | del
+	mode     string   // "" | down | get | slowget | set | del
 	filt     string   // "" or first byte of the keys the fault applies to
 	log      []C06Cmd
 	injected int
@@ -155,8 +155,15 @@ func (s *C06Srv) hook(c *server.Peer, cmd string, args ...string) bool {
 	if e.Failed {
 		s.injected++
 	}
+	slow := e.Failed && s.mode == "slowget"
 	s.log = append(s.log, e)
 	s.mu.Unlock()
+	if slow {
+		// the failing GET takes a while (real time: this goroutine is outside
+		// the bubble and the client waits in network I/O), so that readers
+		// starting at the same virtual instant join the leader's flight
+		time.Sleep(3 * time.Millisecond)
+	}
 	if e.Failed {
 		c.WriteError("ERR c06 injected fault")
 		return true
@@ -185,7 +192,7 @@ func (s *C06Srv) ours(keys []string) bool {
 func (s *C06Srv) matches(cmd string, keys []string) bool {
 	switch s.mode {
 	case "down":
-	case "get":
+	case "get", "slowget":
 		if cmd != "GET" {
 			return false
 		}
@@ -270,12 +277,12 @@ func C06Poison(salt int) {
 	c06PoisonMu.Unlock()
 }
 
-// C06Poisoned: a case with the same key names stalled less than 30 s ago.
+// C06Poisoned: a case with the same key names stalled less than 10 s ago.
 func C06Poisoned(salt int) bool {
 	c06PoisonMu.Lock()
 	defer c06PoisonMu.Unlock()
 	t, ok := c06Poison[salt]
-	return ok && C06RealNow()-t < 30e9
+	return ok && C06RealNow()-t < 10e9
 }
 
 // C06RealNow is the wall clock in nanoseconds even inside a bubble (where
